@@ -9,6 +9,7 @@ use vcore::runner::*;
 mod api;
 mod c01;
 mod c02;
+mod c11;
 mod c15;
 mod c16;
 mod misc;
@@ -37,6 +38,7 @@ fn checks() -> Vec<CheckDef> {
         CheckDef { id: "C08", level: "exploration", run: misc::run_c08, replay: misc::replay_c08 },
         CheckDef { id: "C09", level: "exploration", run: api::run_c09, replay: api::replay_c09 },
         CheckDef { id: "C10", level: "exploration", run: api::run_c10, replay: api::replay_c10 },
+        CheckDef { id: "C11", level: "exploration", run: c11::run, replay: c11::replay },
         CheckDef { id: "C13", level: "exploration", run: uri::run_c13, replay: uri::replay_c13 },
         CheckDef { id: "C14", level: "exploration", run: uri::run_c14, replay: uri::replay_c14 },
         CheckDef { id: "C15", level: "exploration", run: c15::run, replay: c15::replay },
